@@ -210,3 +210,175 @@ Proof.
         -- intros k. rewrite cnt_snoc, E1, Hp. cbn [andb]. lia.
         -- intros k. rewrite cnt_snoc, E2, Hn. cbn [andb]. lia.
 Qed.
+
+(* ---- summing a map against the observations it accounts for ---- *)
+Definition sumif (p : Z -> bool) (m : bmap) : Z := zsum (map snd (filter (fun e => p (fst e)) m)).
+
+Lemma cnt_pos_of_in p v G : In v G -> p v = true -> 0 < cnt p G.
+Proof.
+  induction G as [|a G IH]; intros Hin Hp; [destruct Hin|]. rewrite cnt_cons.
+  pose proof (cnt_nonneg p G). destruct Hin as [->|Hin]; [rewrite Hp; lia|].
+  specialize (IH Hin Hp). destruct (p a); lia.
+Qed.
+
+Lemma cnt_false p G : (forall v, In v G -> p v = false) -> cnt p G = 0.
+Proof.
+  induction G as [|a G IH]; intros H; [reflexivity|]. rewrite cnt_cons, (H a (or_introl eq_refl)), IH; [reflexivity|].
+  intros v Hv. apply H. right. exact Hv.
+Qed.
+
+Lemma cnt_split p q G : cnt p G = cnt (fun v => p v && q v) G + cnt (fun v => p v && negb (q v)) G.
+Proof.
+  induction G as [|a G IH]; [reflexivity|]. rewrite !cnt_cons, IH. destruct (p a), (q a); cbn [andb negb]; lia.
+Qed.
+
+Lemma sumif_cnt (key : f64 -> Z) (p : Z -> bool) G : forall m lo (Q : f64 -> bool), sorted_from m lo ->
+  (forall k, m_get m k = cnt (fun v => Q v && Z.eqb (key v) k) G) ->
+  sumif p m = cnt (fun v => Q v && p (key v)) G.
+Proof.
+  induction m as [|[k0 c] r IH]; intros lo Q Hs H.
+  - cbn. symmetry. apply cnt_false. intros v Hv.
+    destruct (Q v) eqn:HQ; [|reflexivity]. exfalso.
+    pose proof (H (key v)) as E. cbn [m_get] in E.
+    pose proof (cnt_pos_of_in (fun v0 => Q v0 && (key v0 =? key v)) v G Hv) as P.
+    cbv beta in P. rewrite HQ, Z.eqb_refl in P. specialize (P eq_refl). lia.
+  - cbn [sorted_from] in Hs. destruct Hs as [H1 H2].
+    assert (Hr : forall k, m_get r k = cnt (fun v => (Q v && negb (key v =? k0)) && (key v =? k)) G).
+    { intros k. destruct (Z.eqb_spec k k0) as [->|Hne].
+      - rewrite (m_get_below r (k0 + 1) k0 H2) by lia. symmetry. apply cnt_false. intros v _.
+        destruct (key v =? k0), (Q v); reflexivity.
+      - pose proof (H k) as E. cbn [m_get] in E. destruct (Z.eqb_spec k k0); [lia|]. rewrite E.
+        apply cnt_ext. intros v _. destruct (Z.eqb_spec (key v) k) as [->|]; [|rewrite !andb_false_r; reflexivity].
+        destruct (Z.eqb_spec k k0); [lia|]. rewrite andb_true_r. reflexivity. }
+    specialize (IH (k0 + 1) (fun v => Q v && negb (key v =? k0)) H2 Hr).
+    unfold sumif in *. cbn [filter fst].
+    rewrite (cnt_split (fun v => Q v && p (key v)) (fun v => key v =? k0) G).
+    replace (cnt (fun v => Q v && p (key v) && negb (key v =? k0)) G)
+      with (cnt (fun v => Q v && negb (key v =? k0) && p (key v)) G)
+      by (apply cnt_ext; intros v _; destruct (Q v), (p (key v)), (key v =? k0); reflexivity).
+    rewrite <- IH. pose proof (H k0) as E. cbn [m_get] in E. rewrite Z.eqb_refl in E.
+    destruct (p k0) eqn:Hp.
+    + cbn [map snd]. change (zsum (c :: ?l)) with (c + zsum l).
+      replace (cnt (fun v => Q v && p (key v) && (key v =? k0)) G) with c; [reflexivity|].
+      rewrite E. apply cnt_ext. intros v _. destruct (Z.eqb_spec (key v) k0) as [->|]; [|rewrite !andb_false_r; reflexivity].
+      rewrite Hp. reflexivity.
+    + replace (cnt (fun v => Q v && p (key v) && (key v =? k0)) G) with 0; [reflexivity|].
+      symmetry. apply cnt_false. intros v _. destruct (Z.eqb_spec (key v) k0) as [->|]; [|rewrite !andb_false_r; reflexivity].
+      rewrite Hp, andb_false_r. reflexivity.
+Qed.
+
+Lemma map_total (key : f64 -> Z) G m (Q : f64 -> bool) : wf m ->
+  (forall k, m_get m k = cnt (fun v => Q v && Z.eqb (key v) k) G) ->
+  zsum (map snd m) = cnt Q G.
+Proof.
+  intros [lo Hs] H. pose proof (sumif_cnt key (fun _ => true) G m lo Q Hs H) as E.
+  unfold sumif in E. replace (filter (fun e => true) m) with m in E
+    by (clear; induction m as [|a m IH]; [reflexivity|cbn; rewrite <- IH; reflexivity]).
+  rewrite E. apply cnt_ext. intros v _. apply andb_true_r.
+Qed.
+
+Lemma map_nonneg (key : f64 -> Z) G m (Q : f64 -> bool) : wf m ->
+  (forall k, m_get m k = cnt (fun v => Q v && Z.eqb (key v) k) G) ->
+  forall e, In e m -> 0 <= snd e.
+Proof.
+  intros [lo Hs] H [k v] Hin. cbn [snd]. rewrite <- (m_get_in m lo k v Hs Hin), H. apply cnt_nonneg.
+Qed.
+
+(* ---- what one Write must expose for the observations G (at the level of the model's own
+        classification: goes_zero / goes_pos / goes_neg and key_of) ---- *)
+Definition side_ok_m (G : list f64) (Q : f64 -> bool) (schema : Z) (sp : list (Z * Z)) (ds : list Z) : Prop :=
+  exists pops, decode sp ds = Some pops /\
+    (forall k, m_get pops k = cnt (fun v => Q v && Z.eqb (key_of schema v) k) G) /\
+    (forall e, In e pops -> 0 <= snd e) /\
+    zsum (map snd pops) = cnt Q G.
+
+Record out_ok (G : list f64) (w : wout) : Prop := mkOutOk {
+  o_count : w_count w = zlen G;
+  o_zc : w_zc w = cnt (goes_zero (w_zt w)) G;
+  o_sum : w_sum w = fold_left fadd G pzero;
+  o_pos : side_ok_m G (goes_pos (w_zt w)) (w_schema w) (w_pspans w) (w_pdeltas w);
+  o_neg : side_ok_m G (goes_neg (w_zt w)) (w_schema w) (w_nspans w) (w_ndeltas w)
+}.
+
+Lemma wf_sorted_keys m : wf m -> sorted_keys m.
+Proof. intros [lo H]. destruct m as [|[i c] r]; [exact I|]. cbn in *. apply H. Qed.
+
+Lemma side_ok_of_map G Q schema m : wf m ->
+  (forall k, m_get m k = cnt (fun v => Q v && Z.eqb (key_of schema v) k) G) ->
+  side_ok_m G Q schema (fst (make_buckets m)) (snd (make_buckets m)).
+Proof.
+  intros Hw H. exists (fill m true 0). split; [apply spans_decode_lemma, wf_sorted_keys, Hw|].
+  split; [intros k; rewrite fill_get by (apply wf_sorted_keys, Hw); apply H|]. split.
+  - apply fill_nonneg. apply (map_nonneg (key_of schema) G m Q Hw H).
+  - rewrite fill_total. apply (map_total (key_of schema) G m Q Hw H).
+Qed.
+
+Lemma make_buckets_nil_spans m : fst (make_buckets m) = [] -> m = [] /\ snd (make_buckets m) = [].
+Proof.
+  unfold make_buckets. destruct m as [|[i c] r]; [split; reflexivity|].
+  cbn [enc orb]. destruct (enc r false (i + 1) c) as [[n sp] ds]. cbn. discriminate.
+Qed.
+
+(* ---- the histogram invariant ---- *)
+Record inv (h : hist) (G : list f64) : Prop := mkInv {
+  i_hot : acct (h_hot h) G;
+  i_cold : drained (h_cold h);
+  i_schema : c_schema (h_cold h) = c_schema (h_hot h);
+  i_zt : c_zt (h_cold h) = c_zt (h_hot h);
+  i_n : h_n h = c_cnt (h_hot h)
+}.
+
+Lemma inv_new g : inv (new_hist g) [].
+Proof. constructor; cbn; try reflexivity; [apply acct_reset|apply drained_reset]. Qed.
+
+Lemma fadd_pzero_sum G : fadd pzero (fold_left fadd G pzero) = fold_left fadd G pzero.
+Proof. apply fadd_pzero_l. apply sum_not_nzero. Qed.
+
+Lemma write_inv h G : inv h G ->
+  exists h' w, write h = Some (h', w) /\ inv h' G /\ out_ok G w /\
+    w_schema w = c_schema (h_hot h) /\ w_zt w = c_zt (h_hot h) /\ w_created w = h_last h /\
+    h_cfg h' = h_cfg h /\ h_last h' = h_last h /\ h_clock h' = h_clock h /\ h_sched h' = h_sched h /\
+    c_schema (h_hot h') = c_schema (h_hot h) /\ c_zt (h_hot h') = c_zt (h_hot h).
+Proof.
+  intros [[Hc Hz Hp Hn Wp Wn Hs] [Dc Dz Ds Dp Dn DWp DWn] Hsch Hzt Hcnt].
+  unfold write. rewrite Hcnt, Z.eqb_refl. cbn [negb].
+  pose proof (side_ok_of_map G (goes_neg (c_zt (h_hot h))) (c_schema (h_hot h)) (c_neg (h_hot h)) Wn Hn) as SN.
+  pose proof (side_ok_of_map G (goes_pos (c_zt (h_hot h))) (c_schema (h_hot h)) (c_pos (h_hot h)) Wp Hp) as SP.
+  pose proof (make_buckets_nil_spans (c_pos (h_hot h))) as NP.
+  destruct (make_buckets (c_neg (h_hot h))) as [nsp nds]. destruct (make_buckets (c_pos (h_hot h))) as [psp pds].
+  cbn [fst snd] in SN, SP, NP.
+  unfold add_and_reset_counts. cbn [c_sum c_cnt c_zb c_zt c_schema c_bn c_pos c_neg].
+  destruct DWp as [lop DWp]. destruct DWn as [lon DWn]. destruct Wp as [lp Wp]. destruct Wn as [ln Wn].
+  pose proof (fun bn k => merge_reset_get (c_pos (h_hot h)) (c_pos (h_cold h)) bn lp lop k Wp DWp) as Gp.
+  pose proof (fun bn => merge_reset_wf (c_pos (h_hot h)) (c_pos (h_cold h)) bn (ex_intro _ lop DWp)) as Wp'.
+  destruct (merge_reset (c_pos (h_hot h)) (c_pos (h_cold h)) (c_bn (h_cold h))) as [hp bn1] eqn:Ep.
+  pose proof (fun k => Gp (c_bn (h_cold h)) k) as Gp1. rewrite Ep in Gp1. specialize (Wp' (c_bn (h_cold h))). rewrite Ep in Wp'.
+  pose proof (fun k => merge_reset_get (c_neg (h_hot h)) (c_neg (h_cold h)) bn1 ln lon k Wn DWn) as Gn.
+  pose proof (merge_reset_wf (c_neg (h_hot h)) (c_neg (h_cold h)) bn1 (ex_intro _ lon DWn)) as Wn'.
+  destruct (merge_reset (c_neg (h_hot h)) (c_neg (h_cold h)) bn1) as [hn bn2]. cbn [fst] in *.
+  eexists. eexists. split; [reflexivity|]. cbn [h_hot h_cold h_n h_cfg h_last h_clock h_sched w_schema w_zt w_created].
+  split; [|split; [|repeat split; try reflexivity; try assumption]].
+  - constructor; cbn [h_hot h_cold h_n c_schema c_zt c_cnt]; try reflexivity; try lia.
+    + constructor; cbn [c_sum c_cnt c_zb c_zt c_schema c_pos c_neg].
+      * lia.
+      * rewrite Hzt, Dz, Hz. lia.
+      * intros k. rewrite Gp1, (m_get_all_zero _ k Dp), Hzt, Hsch, Hp. lia.
+      * intros k. rewrite Gn, (m_get_all_zero _ k Dn), Hzt, Hsch, Hn. lia.
+      * exact Wp'.
+      * exact Wn'.
+      * rewrite Ds, Hs. apply fadd_pzero_sum.
+    + constructor; cbn [c_sum c_cnt c_zb c_pos c_neg]; try reflexivity.
+      * apply zero_vals_zero.
+      * apply zero_vals_zero.
+      * apply zero_vals_wf. eexists; exact Wp.
+      * apply zero_vals_wf. eexists; exact Wn.
+    + rewrite Hsch. reflexivity.
+    + rewrite Hzt. reflexivity.
+  - constructor; cbn [w_count w_zc w_sum w_zt w_schema w_pspans w_pdeltas w_nspans w_ndeltas]; try assumption; try lia.
+    destruct psp as [|ps psr]; [|exact SP]. destruct nsp as [|ns nsr]; [|exact SP].
+    destruct (feq (c_zt (h_hot h)) pzero && (c_zb (h_hot h) =? 0)); [|exact SP].
+    destruct (NP eq_refl) as [_ ->]. destruct SP as [pops [Hd Hrest]]. exists pops. split; [|exact Hrest].
+    cbn in Hd. inversion Hd. subst pops. reflexivity.
+  - rewrite Hsch. reflexivity.
+  - rewrite Hzt. reflexivity.
+Qed.
